@@ -286,6 +286,11 @@ Definition run_case' (e : sexp) : str :=
     match dDoc de with
     | Some d => if str_eqb mode (s2l "c10") then run_c10 id d impl extra
                 else if str_eqb mode (s2l "c11") then run_c11 id d impl extra
+                else if str_eqb mode (s2l "c08") then
+                  match dList dBool extra with
+                  | Some inh => run_simple (fun d pd => check_c08 d pd inh) id d impl
+                  | None => line [kv "id" id; kv "bad" (s2l "extra")]
+                  end
                 else line [kv "id" id; kv "bad" (s2l "mode5")]
     | None => line [kv "id" id; kv "bad" (s2l "decode")]
     end
